@@ -65,10 +65,10 @@ Quick(u) == S1(E2, 2, AllKinds, {PAll(2), PAlt(2)}) \cup S1(E3, 2, AllKinds, {PA
             \cup {s \in S1Cut(E3, 2, {"collect2", "mutate", "nonempty"}, {PAll(2), PAlt(2)}) : WellCut(s)}
             \cup S2(E3, E3, 2, {"collect2"}) \cup S2(E3, E2, 2, {"collect", "pervalue"})
 Thorough(u) == S1(E2, 3, AllKinds, {PAll(3), PAlt(3)}) \cup S1(E3, 3, AllKinds, {PAll(3), PAlt2(3)})
-               \cup S1(E3, 4, {"collect2", "nonempty"}, {PAlt(4)}) \cup S1(E4, 3, AllKinds, {PAlt(3)})
-               \cup {s \in S1Cut(E3, 3, SomeKinds, {PAlt(3)}) : WellCut(s)}
+               \cup S1(E3, 4, {"collect2"}, {PAlt(4)}) \cup S1(E4, 3, SomeKinds, {PAlt(3)})
+               \cup {s \in S1Cut(E3, 3, {"collect2", "mutate"}, {PAlt(3)}) : WellCut(s)}
                \cup {s \in S1Cut(E2, 2, AllKinds, {PAll(2), PAlt(2)}) : WellCut(s)}
-               \cup S2(E3, E3, 2, AllKinds) \cup S2(E3, E2, 3, {"collect2"}) \cup S2(E2, E4, 2, AllKinds)
+               \cup S2(E3, E3, 2, SomeKinds) \cup S2(E3, E2, 2, AllKinds) \cup S2(E2, E4, 2, SomeKinds)
 Tiny(u) == {s \in S1Cut(E3, 2, {"collect2", "nonempty"}, {PAlt(2)}) : WellCut(s)} \cup S2(E3, E2, 1, {"collect"})
 Scenarios == CASE U = "quick" -> Quick(U) [] U = "thorough" -> Thorough(U) [] U = "tiny" -> Tiny(U)
 
